@@ -12,7 +12,7 @@ ContentOf(S) == LET ks == SetToSortSeq(S, Lex) IN [i \in 1..Len(ks) |-> <<ks[i],
 
 \* a few automata over classes {byte 1, other}
 Cls == [i \in 1..256 |-> IF i = 2 THEN 1 ELSE 2]
-Auts == { [n |-> 2, start |-> 1, cls |-> Cls, delta |-> d, match |-> m, can |-> {1, 2}, always |-> {}] :
+Auts == { [n |-> 2, start |-> 1, cls |-> Cls, delta |-> d, match |-> m, can |-> {1, 2}, always |-> {}, eof |-> <<0, 0>>] :
             d \in [{1, 2} -> [{1, 2} -> {1, 2}]], m \in SUBSET {1, 2} }
 
 VARIABLES c, p, lo, hi, aut, c2, op, mode, pc
